@@ -427,7 +427,11 @@ func genC14(tier string, r *Rng, emit func(Case)) {
 	// slice around and, for the eager functions, inside the window afterwards)
 	for i := 0; i < 2*n; i++ {
 		ver := allVers[i%3]
-		if t, ok := genFindCase(r, ver, "T"); ok {
+		kind := "T"
+		if ver == "v3" && i%3 == 0 {
+			kind = "G" // lazily computed: the digit source runs while the search does
+		}
+		if t, ok := genFindCase(r, ver, kind); ok {
 			emit(Case{Ver: ver, Op: "Find", Args: t})
 		}
 	}
